@@ -12,7 +12,9 @@ parity is derived (m + P(m) is S, m - P(m) is A, S+S is S, A+A is A, anything el
 No algebra beyond monomial normalisation is done; two monomials are compared as multisets.
 
 API
-  analyse(fdef, param_kinds) -> Report
+  analyse(fdef, param_kinds, module=None) -> Report
+      module: pyfacts.Module; module-level literal constants are folded (literal == named constant) and
+      same-module helper functions / methods are inlined (helper extraction), up to depth 3
       param_kinds: {param name or position: "spin" | "sig3" | "sym"}
       Report.writes: [Write(array, kind, slot, rest, op, value, node, branch)]   element / whole-array stores
       Report.pairs():  yields (status, message, node) with status in {"ok", "bad", "nc"} for
@@ -192,10 +194,14 @@ ELEMENTWISE = {"np.sqrt", "np.abs", "np.exp", "np.log", "np.cbrt", "np.square", 
 
 
 class _Interp:
-    def __init__(self, fdef, kinds):
+    def __init__(self, fdef, kinds, module=None):
         self.fdef = fdef
         self.rep = Report()
         self.env = {}
+        self.module = module        # pyfacts.Module: module-level literals and same-module helpers
+        self.depth = 0
+        self.retvals = []
+        self._glob = {}
         params = [a.arg for a in fdef.args.args]
         for k, kind in kinds.items():
             name = params[k] if isinstance(k, int) else k
@@ -218,7 +224,7 @@ class _Interp:
         if isinstance(e, ast.Name):
             if e.id in self.env:
                 return self.env[e.id]
-            return self.sym_atom(e.id)          # module-level constant
+            return self.module_const(e.id)
         if isinstance(e, ast.Attribute):
             d = pf.src(e)
             base = self.ev(e.value) if not isinstance(e.value, ast.Name) or e.value.id in self.env else None
@@ -241,6 +247,9 @@ class _Interp:
         if isinstance(e, ast.Call):
             name = pf.call_name(e) or ""
             args = [self.ev(a) for a in e.args]
+            r = self.inline_call(e, args)
+            if r is not None:
+                return r
             if isinstance(e.func, ast.Attribute) and e.func.attr in ("copy", "astype", "sum", "mean") and not e.args \
                     and isinstance(e.func.value, (ast.Name, ast.Subscript, ast.Attribute)):
                 base = self.ev(e.func.value)
@@ -276,6 +285,64 @@ class _Interp:
             return [self.ev(x) for x in e.elts]
         return TOP
 
+    def module_const(self, name):
+        """module-level named constant: a pure literal expression is folded (literal == named constant),
+        anything else is an invariant atom"""
+        if name in self._glob:
+            return self._glob[name]
+        v = self.sym_atom(name)
+        self._glob[name] = v
+        if self.module is not None and name in self.module.assigns:
+            sub = _Interp.__new__(_Interp)
+            sub.__dict__.update(self.__dict__)
+            sub.env = {}
+            val = sub.ev(self.module.assigns[name])
+            if isinstance(val, Mono) and not val.f:
+                v = val             # pure number: identical to writing the literal in place
+        self._glob[name] = v
+        return v
+
+    def inline_call(self, e, args):
+        """one level of helper extraction: a same-module function (or self.method / Class.method given in
+        module.functions) is interpreted with its parameters bound to the argument values"""
+        if self.module is None or self.depth >= 3:
+            return None
+        f = e.func
+        fdef = None
+        if isinstance(f, ast.Name):
+            fdef = self.module.functions.get(f.id)
+        elif isinstance(f, ast.Attribute) and isinstance(f.value, ast.Name):
+            cls = self.module.classes.get(f.value.id)
+            encl = pf.enclosing_class(self.fdef)
+            for c in ([cls] if cls is not None else []) + ([encl] if f.value.id in ("self", "cls") and encl else []):
+                fdef = fdef or pf.methods(c).get(f.attr)
+        if fdef is None or fdef.args.vararg or fdef.args.kwarg:
+            return None
+        params = [a.arg for a in fdef.args.args]
+        if params and params[0] in ("self", "cls") and isinstance(f, ast.Attribute) and f.value.id in ("self", "cls"):
+            params = params[1:]
+        if len(args) > len(params) or e.keywords and any(k.arg not in params for k in e.keywords):
+            return None
+        sub = _Interp.__new__(_Interp)
+        sub.__dict__.update(self.__dict__)
+        sub.fdef, sub.depth, sub.retvals = fdef, self.depth + 1, []
+        sub.env = dict(zip(params, args))
+        for k in e.keywords:
+            sub.env[k.arg] = self.ev(k.value)
+        defaults = dict(zip([a.arg for a in fdef.args.args][len(fdef.args.args) - len(fdef.args.defaults):],
+                            fdef.args.defaults))
+        for p_ in params:
+            if p_ not in sub.env:
+                sub.env[p_] = sub.ev(defaults[p_]) if p_ in defaults else TOP
+        sub.run(fdef.body)
+        if not sub.retvals:
+            return self.sym_atom("None")
+        first = sub.retvals[0]
+        same = all(type(r) is type(first) and (
+            [self.canon(x) for x in r] == [self.canon(x) for x in first] if isinstance(first, list)
+            else self.canon(r) == self.canon(first)) for r in sub.retvals[1:])
+        return first if same else TOP
+
     def canon(self, v):
         return v.canon() if isinstance(v, Mono) else v.ident if isinstance(v, Arr) else "?"
 
@@ -300,6 +367,8 @@ class _Interp:
                 return Arr(a.kind, "(%s**%s)" % (a.ident, b.coef))
             if isinstance(a, Mono) and isinstance(b, Mono) and parity(a) == 1 and parity(b) == 1:
                 return self.sym_atom("(%s**%s)" % (a.canon(), b.canon()))
+            if isinstance(a, Arr) and isinstance(b, Mono) and parity(b) == 1:
+                return Arr(a.kind, "(%s**%s)" % (a.ident, b.canon()))
             return TOP
         if isinstance(op, (ast.Add, ast.Sub)):
             minus = isinstance(op, ast.Sub)
@@ -408,7 +477,10 @@ class _Interp:
                     if isinstance(n, ast.Name) and isinstance(n.ctx, ast.Store):
                         self.env[n.id] = TOP
                 self.rep.notes.append("compound statement at line %d not interpreted" % st.lineno)
-            elif isinstance(st, (ast.Return, ast.Raise)):
+            elif isinstance(st, ast.Return):
+                self.retvals.append(self.ev(st.value) if st.value is not None else self.sym_atom("None"))
+                return
+            elif isinstance(st, ast.Raise):
                 return
             elif isinstance(st, (ast.Expr, ast.Assert, ast.Pass)):
                 continue
@@ -432,7 +504,7 @@ class _Interp:
                 self.rep.writes.append(Write(base, slot, rest, op, v if not isinstance(v, list) else TOP, st, self.branch))
 
 
-def analyse(fdef, param_kinds):
-    it = _Interp(fdef, param_kinds)
+def analyse(fdef, param_kinds, module=None):
+    it = _Interp(fdef, param_kinds, module)
     it.run(fdef.body)
     return it.rep
